@@ -143,6 +143,35 @@ CLAIMED.update({
   design="DESIGN.md §4.C20"),
 })
 
+CLAIMED.update({
+ "C04": dict(
+  text="Deductive proof of the sequential half of the linearizability argument on the real queue.go: every public queue_ method, run without interference, has exactly one FIFO effect on the abstract queue "
+       "(AddValue appends, RemoveHead returns and removes the head or reports ok=false only when closed and empty, RemoveAll empties, GetSize/IsEmpty/AsArray report the abstract content in order and GetSize <= capacity), "
+       "the representation invariant (tokens in available_ == len(values_) <= capacity_) holds between calls, every Lock is paired with an Unlock on every path including panics, "
+       "and a guarded-by obligation is generated for every read or write of values_ and available_ (mutex_ must be held unless the object is still confined to its allocating call). "
+       "The guarded-by obligations that fail are a genuine defect (unlocked reads of available_ racing with RemoveAll); it is recorded as a known finding with a go test -race witness that is re-run on every check.",
+  note="NOT decided by this family: interference between concurrently running calls (stability of each method's intermediate assertions under the other threads' steps), hence linearizability under every schedule, "
+       "real-time order across overlapping calls, back-pressure timing and absence of data races beyond the guarded-by discipline. These are whole-history / schedule properties; the contracts decide the per-call effect, lock pairing and lock discipline only. "
+       "sync.Mutex and Go channel semantics are assumed (channel = counter of tokens + closed flag).",
+  design="DESIGN.md §4.C04"),
+ "C05": dict(
+  text="Deductive proof of the constructor clause on the real code: a blocking queue operation invoked on a queue that the calling function itself allocated (still thread-confined, so nobody else can ever make room) "
+       "must be provably non-blocking: precondition `localfresh(q) ==> len(view(q)) < capacity(q)` on QueueLike.AddValue, checked at every call site in MakeFromArray, MakeFromSequence and their loops with invariants that count the values added so far. "
+       "The original MakeFromSequence failed it (capacity 16 regardless of the number of initial values: self-deadlock for N > 16) and was repaired by a fix: commit; the parser path (parseSequence -> MakeFromSequence) inherits the contract.",
+  note="NOT decided by this family: lost wake-ups and termination of producer/consumer programs under every schedule (liveness over schedules; a contract has no notion of 'eventually'). "
+       "The module-level Queue constructor is not under contract (its source form still adds values one by one through AddValue on a default-capacity queue: reported in DESIGN.md as an open observation, not decided here).",
+  design="DESIGN.md §4.C05"),
+ "C06": dict(
+  text="Deductive proof, on the real Fork/Split/Join code including the three helper goroutine bodies (closures verified as functions of their captured variables), of the stream bookkeeping each helper performs, "
+       "stated over thread-local ghost histories that hold under any interference (got(q): what this thread removed from q, put(q): what it added, qclosed(q)): "
+       "Fork appends exactly the values taken from the input, in order, to every output; Split appends the i-th value taken to output rr(i,n) as that output's rcount(i,rr(i,n),n)-th new value and nothing else anywhere (rr/rcount: round-robin definitions; rr(i,n) = i mod n proved in Lean in the thorough tier; slots are proved pairwise distinct: no loss, no duplication); "
+       "Join appends to its output, as i-th value, the rcount-th value taken from input rr(i,n); all outputs are closed after the input reports closed-and-drained; the wait group is incremented once before the spawn and decremented exactly once on every exit path of the helper including panics; "
+       "the helper's preconditions (distinct, non-nil, already-allocated queues) are proved at the go statement; lemma split_then_join composes the two contracts over FIFO intermediate queues.",
+  note="NOT decided by this family: that the helper goroutines terminate (the receive loop is marked `decreases *`), delivery under every schedule, and the FIFO behaviour of the intermediate queues under concurrency (that is C04's undecided half). "
+       "Join's contract requires distinct input queues (what Fork and Split return); Join on a list naming one queue twice is outside the contract.",
+  design="DESIGN.md §4.C06"),
+})
+
 NOT_YET = {}
 
 TECH = "contract-based deductive verification: weakest-precondition style VCs generated from go/ssa of /repo, contracts in //go:build verif comment files, discharged by z3 5.1 / z3 4.8 / cvc5"
